@@ -22,6 +22,11 @@ type RoundResult struct {
 	Txs       int
 	Submitted int
 	Accepted  int
+	// SelfErr is set when the proposer's own full validation of the block it just built fails
+	// (property C02); SelfPred classifies it, SelfDetail describes the state difference.
+	SelfErr    error
+	SelfPred   string
+	SelfDetail string
 }
 
 // Ledger is the round driver over a set of replicas that follow one chain.
@@ -162,6 +167,26 @@ func (l *Ledger) Round(nodes []*simnode.Node) *RoundResult {
 	s.Blocks++
 	s.TxIncluded += rr.Txs
 	s.R.Logf("block h=%d empty=%v by=%d txs=%d flags=%b hash=%x", rr.Height, rr.Empty, rr.Proposer.ID, rr.Txs, rr.Flags, rr.Block.Hash().Bytes()[:6])
+	if !rr.Empty {
+		built := rr.Proposer.LastApplied
+		serr, pv, st := s.Validate(rr.Proposer, rr.Enc)
+		if pv != nil {
+			s.R.Violate("C02:validation-panicked", "node %d validating its own block h=%d: %v\n%s", rr.Proposer.ID, rr.Height, pv, st)
+		}
+		if serr != nil {
+			rr.SelfErr = serr
+			rr.SelfPred = "C02:honest-block-rejected"
+			var tt []uint16
+			for _, tx := range rr.Block.Body.Transactions {
+				tt = append(tt, uint16(tx.Type))
+			}
+			rr.SelfDetail = fmt.Sprintf("node %d rejects the block h=%d (%d txs of types %v) it has just built: %v; building state (A) vs validating state (B):%s", rr.Proposer.ID, rr.Height, rr.Txs, tt, serr, DiffStates(built, rr.Proposer.LastApplied))
+			if only, _ := OnlyEmptyIdentityCreated(built, rr.Proposer.LastApplied); only {
+				rr.SelfPred = "C02:honest-block-rejected/empty-identity-left-by-validation-of-filtered-tx"
+			}
+			s.R.Logf("proposer self-validation failed: %s", rr.SelfPred)
+		}
+	}
 	return rr
 }
 
@@ -244,4 +269,15 @@ func (l *Ledger) BringOnline(nodes []*simnode.Node) {
 			s.NoteAccepted(tx)
 		}
 	}
+}
+
+// Usable tells a check other than C02 whether the round produced a block it can go on with.
+// A block its own proposer rejects is property C02's business: C02 reports it, the other
+// checks end their scenario there (counted by a probe) instead of blaming their own property.
+func (l *Ledger) Usable(rr *RoundResult) bool {
+	if rr.SelfErr == nil {
+		return true
+	}
+	l.S.R.Probe("scenario_cut_short_by_C02_violation:" + rr.SelfPred)
+	return false
 }
